@@ -446,8 +446,10 @@ func markerProp(t *rapid.T) {
 // NotEqualPostRelease: the PyPI constraint "!=V" is built as [0:V) plus (V:inf]
 // and the matcher's ">V does not match post-releases of V" heuristic then also
 // hides V.postN from "!=V"; packaging says V.postN != V is true.
+var notEqualPostAtom = regexp.MustCompile(`!=\s*['"][^'"]*\.post[0-9]*['"]|['"][^'"]*\.post[0-9]*['"]\s*!=`)
+
 func knownMarkerClass(mk string, extras []string) string {
-	if strings.Contains(mk, "!=") && strings.Contains(mk, ".post") && kf.Open("C16", "NotEqualPostRelease") {
+	if notEqualPostAtom.MatchString(mk) && kf.Open("C16", "NotEqualPostRelease") {
 		return "NotEqualPostRelease"
 	}
 	// PrereleaseLeftOfLess: "<V" is built as [0.0.0dev0:V); the dev lower bound
